@@ -141,6 +141,9 @@ def write_job_dir(job, jobdir):
             dst = os.path.join(jobdir, 'deps', n)
             shutil.copyfile(os.path.join(HERE, 'fixtures', n), dst)
             os.utime(dst, (FAR_PAST, FAR_PAST))
+    dst = os.path.join(jobdir, 'deps', 'Crayon-1.0.gir')
+    shutil.copyfile(os.path.join(HERE, 'fixtures', 'Crayon-1.0.gir'), dst)
+    os.utime(dst, (FAR_PAST, FAR_PAST))
     j = dict(job)
     j['dir'] = jobdir
     j['deps'] = []          # children only need the main namespace; dependency GIRs are files
@@ -221,6 +224,10 @@ def gen_variants(rng, job, thorough, cache_only=False):
     variants = []
     orders = scanjobs.valid_file_orders(job, rng, 6 if thorough else 4)
     ncomments = len(job['comments'])
+    fixed = bool(job.get('fixed_order'))
+    if fixed:
+        # an identifier documented twice: the arrival order of blocks is part of the input
+        orders, ncomments = [], 0
     # 1. hash seeds x file orders x raw comment permutations, cache disabled
     for i in range(0 if cache_only else (10 if thorough else 6)):
         v = {'kind': 'order', 'hashseed': rng.choice(pool)}
@@ -239,7 +246,7 @@ def gen_variants(rng, job, thorough, cache_only=False):
         # containing them were supplied"; the Python pipeline accepts any arrival order of symbols
         # (the unchanged tree is byte-stable under these too), even though a real C compiler
         # front end would only see such an order if every header forward-declared what it uses.
-        for _ in range(3 if thorough else 2):
+        for _ in range(0 if fixed else (3 if thorough else 2)):
             fo = job['file_order'][:]
             rng.shuffle(fo)
             variants.append({'kind': 'order', 'hashseed': rng.choice(pool), 'file_order': fo, 'free_order': True})
